@@ -28,6 +28,17 @@ type SessionState struct {
 	createdAt        time.Time           // Session创建时间
 }
 
+// clone 返回会话的独立副本（主密钥单独拷贝），缓存只保存和返回副本，
+// 这样淘汰条目时对主密钥置零不会破坏仍在其他键下保存或正被握手使用的会话。
+func (s *SessionState) clone() *SessionState {
+	if s == nil {
+		return nil
+	}
+	c := *s
+	c.masterSecret = append([]byte(nil), s.masterSecret...)
+	return &c
+}
+
 // SessionCache 会话缓存器接口，用于存储和检索会话状态。
 // 实现必须支持多 goroutine 并发访问。
 //
@@ -80,6 +91,9 @@ func (c *lruSessionCache) Put(sessionKey string, cs *SessionState) {
 	c.Lock()
 	defer c.Unlock()
 
+	// 缓存持有独立副本，避免与调用方或其他键共享同一个对象
+	cs = cs.clone()
+
 	if elem, ok := c.m[sessionKey]; ok {
 		if cs == nil {
 			c.q.Remove(elem)
@@ -89,6 +103,11 @@ func (c *lruSessionCache) Put(sessionKey string, cs *SessionState) {
 			entry.state = cs
 			c.q.MoveToFront(elem)
 		}
+		return
+	}
+
+	if cs == nil {
+		// 删除不存在的键：无操作
 		return
 	}
 
@@ -123,12 +142,12 @@ func (c *lruSessionCache) Get(sessionKey string) (*SessionState, bool) {
 		if elem == nil {
 			return nil, false
 		}
-		return elem.Value.(*lruSessionCacheEntry).state, true
+		return elem.Value.(*lruSessionCacheEntry).state.clone(), true
 	}
 
 	if elem, ok := c.m[sessionKey]; ok {
 		c.q.MoveToFront(elem)
-		return elem.Value.(*lruSessionCacheEntry).state, true
+		return elem.Value.(*lruSessionCacheEntry).state.clone(), true
 	}
 	return nil, false
 }
